@@ -46,7 +46,7 @@ CHECKS["C11"] = dict(
     text="TLC model-checks on Clock.tla the round trip wall -> instant -> wall, composition of conversions, shift inverse / modulo 24 h and symmetry of differences for every minute of the day "
          "x 14 offsets; enumerates 7 wall times x every usable zone of config.json and 8 GMT forms, conversions over ordered zone pairs (quick 44x44, thorough all), shifts, differences under "
          "3 default zones set through set_timezone, replayed in every admissible spelling; random times / zones / durations / default zones are executed and validated by TLC.",
-    note="trusted: renderer, time_printed projection, zone offsets read from config.json, TLC; 12:xx am/pm and zone names with another meaning are outside the property",
+    note="trusted: renderer, time_printed projection, zone offsets read from config.json, TLC; 12:xx am is a known finding (read as noon, pinned by the suite); zone names with another meaning are outside the property",
     ref="7 C11")
 
 CHECKS["C09"] = dict(
